@@ -121,3 +121,44 @@ Theorem C01_replay_all_entry_points : forall s0 h e2,
   Forall silent_pass (snd (run t0 h)) /\ s_fs (fst (run t0 h)) = s_fs s1.
 Proof. exact replay_after_create_all_gen. Qed.
 Print Assumptions C01_replay_all_entry_points.
+
+(* non-vacuity of C01_replay_after_update: a concrete recording run that REWRITES an entry (and appends another) meets every
+   hypothesis; the theorem then gives the silent replay in every mode *)
+Definition ue := {| ci := false; upd := UTrue; colour := false |}.
+Definition uf0 : bytes := render [(B "[TestA - 1]", B "old")].
+Definition us0 : state := fst (step (init_state ue (B "/r/x_test.go") (B "/S")) (OPutFile (B "/S/x_test.snap") uf0)).
+Definition uh : list op := [OMatch ASnap 0 (B "TestA") (POk (B "new")); OMatch ASnap 0 (B "TestA") (POk (B "second"))].
+Definition uH := [B "[TestA - 1]"; B "[TestA - 2]"].
+Ltac dec_fact := first [ reflexivity | discriminate | (vm_compute; reflexivity) | (vm_compute; intuition discriminate) | (vm_compute; intuition congruence) ].
+Example upd_hyps :
+  fresh us0 /\ headers_ok uH /\ efs_ok uH (s_fs us0) /\ Forall hist_op_ok uh /\ Forall has_value uh /\
+  Forall rec_ok_upd (snd (run us0 uh)) /\ Forall (fact_ok uH) (facts us0 uh) /\ consistent (facts us0 uh) /\
+  map o_outcome (snd (run us0 uh)) = [Updated; Added].
+Proof.
+  assert (Hfs : s_fs us0 = [(B "/S/x_test.snap", uf0)]) by (vm_compute; reflexivity).
+  split; [repeat split|].
+  split; [repeat constructor; discriminate|].
+  split.
+  { intros p f Hl. rewrite Hfs in Hl. unfold alookup in Hl.
+    match type of Hl with context [if ?c then _ else _] => destruct c end; [|discriminate Hl].
+    injection Hl as <-. exists [(B "[TestA - 1]", B "old")]. split; [reflexivity|]. split.
+    - repeat constructor; dec_fact.
+    - repeat constructor; dec_fact. }
+  split; [repeat constructor; dec_fact|].
+  split; [repeat constructor; eexists; reflexivity|].
+  split; [vm_compute; repeat constructor; tauto|].
+  split.
+  { vm_compute. repeat constructor; dec_fact. }
+  split; [|vm_compute; reflexivity].
+  vm_compute. intros p id a t a' t' H1 H2.
+  repeat (destruct H1 as [H1|H1]); repeat (destruct H2 as [H2|H2]); try contradiction;
+    inversion H1; inversion H2; subst; try discriminate; auto.
+Qed.
+
+Example C01_update_example_replays : forall e2,
+  Forall silent_pass (snd (run (replay_start (fst (run us0 uh)) e2) uh)) /\
+  s_fs (fst (run (replay_start (fst (run us0 uh)) e2) uh)) = s_fs (fst (run us0 uh)).
+Proof.
+  intros e2. destruct upd_hyps as [H1 [H2 [H3 [H4 [H5 [H6 [H7 [H8 _]]]]]]]].
+  exact (C01_replay_after_update uH us0 uh e2 H1 H2 H3 H4 H5 H6 H7 H8).
+Qed.
